@@ -883,10 +883,16 @@ impl Parser {
                         Some(Lexem::Comma) => {}
                         Some(Lexem::RawString(ref ordering_field)) => {
                             let actual_field = match ordering_field.parse::<usize>() {
-                                Ok(idx) => fields[idx - 1].clone(),
+                                Ok(idx) if idx >= 1 && idx <= fields.len() => fields[idx - 1].clone(),
+                                Ok(idx) => {
+                                    return Err(format!("ORDER BY position {} is not in the select list", idx));
+                                }
                                 _ => {
                                     self.drop_lexem();
-                                    self.parse_expr().unwrap().unwrap()
+                                    match self.parse_expr()? {
+                                        Some(expr) => expr,
+                                        None => return Err(String::from("Error parsing ORDER BY")),
+                                    }
                                 }
                             };
                             order_by_fields.push(actual_field);
@@ -894,6 +900,9 @@ impl Parser {
                         }
                         Some(Lexem::DescendingOrder) => {
                             let cnt = order_by_directions.len();
+                            if cnt == 0 {
+                                return Err(String::from("DESC must follow an ORDER BY column"));
+                            }
                             order_by_directions[cnt - 1] = false;
                         }
                         _ => {
